@@ -24,7 +24,7 @@ for p in props:
         evidence_file=f"/verif/evidence/{pid}.json",
         replay_cmd_template=f"bin/check {pid} --replay {{path}}",
         engine="+".join(engines),
-        level_claimed=dict(category="proof", text=m["text"], design_ref=m["design"]),
+        level_claimed=dict(category=m.get("category", "proof"), text=m["text"], design_ref=m["design"]),
         level_note=m["note"],
         technique=m["technique"],
     ))
